@@ -1,15 +1,18 @@
-\* C01 leg A thorough: 2 replicas, all subsets of a 7-point grid (16 384 layouts + 128 identical),
-\* InitPen 5 (x1000 ms); one reader from the start and one seek-first reader per target (8 targets)
+\* C01 leg A thorough: 2 replicas, all subsets of a 6-point grid (4 096 layouts + 64 identical),
+\* InitPen 5 (x1000 ms); one reader from the start and every reader mixing Next with at most one
+\* Seek(x) (6 targets) at any position
 SPECIFICATION Spec
 CONSTANTS InitPen = 5
-          Grid = {0, 1, 4, 6, 11, 17, 30}
+          Grid = {0, 1, 4, 6, 11, 17}
           NumReps = 2
-          MaxLen = 7
+          MaxLen = 6
           Ctr = FALSE
           Starts = {0}
           Incs = {0}
-          Targets = {0, 1, 3, 6, 11, 12, 18, 31}
+          Targets = {0, 1, 3, 6, 12, 18}
           EmitMod = 1
+          MaxSeeks = 1
+          Kinds = {"f"}
 INVARIANTS C01_StrictlyIncreasing C01_FromSomeReplica C01_UnchangedIfIdentical C01_SeekIsSuffix
-           StepwiseEqualsFunctional BoundedOutput OnlyDoneIsFinal
+           C01_FollowsFullStream StepwiseEqualsFunctional BoundedOutput OnlyDoneIsFinal
 CHECK_DEADLOCK FALSE
